@@ -182,9 +182,16 @@ def run_unit(modname, keep_dir=None, rlimit=None):
                 prim = sp
         line = prim['line_start'] if prim else 0
         # all spans, to locate the function (precondition failures point at the callee's clause)
-        span_lines = [sp['line_start'] for sp in dg.get('spans', [])]
+        def outer(sp):
+            # follow macro expansions to the outermost call site
+            while sp.get('expansion') and sp['expansion'].get('span'):
+                sp = sp['expansion']['span']
+            return sp
+        span_lines = [outer(sp)['line_start'] for sp in dg.get('spans', [])]
+        site_texts = {outer(sp)['line_start']: (outer(sp)['text'][0]['text'].strip() if outer(sp).get('text') else '')
+                      for sp in dg.get('spans', [])}
         kind = classify(msg)
-        rec = dict(message=msg, kind=kind, line=line, span_lines=span_lines,
+        rec = dict(message=msg, kind=kind, line=line, span_lines=span_lines, site_texts=site_texts,
                    text=(prim['text'][0]['text'].strip() if prim and prim.get('text') else ''),
                    rendered=dg.get('rendered', ''))
         res.raw_messages.append(rec)
@@ -274,7 +281,11 @@ def run_unit(modname, keep_dir=None, rlimit=None):
 
 def obligation_id(unit, rec):
     clause = re.sub(r'\s+', ' ', rec.get('text', ''))[:160]
-    return '%s/%s/%s: %s' % (unit, rec.get('fn', '?'), rec.get('kind', '?'), clause)
+    site = ''
+    for ln, t in sorted(rec.get('site_texts', {}).items()):
+        if ln != rec.get('line') and t:
+            site = ' @ ' + re.sub(r'\s+', ' ', t)[:100]
+    return '%s/%s/%s: %s%s' % (unit, rec.get('fn', '?'), rec.get('kind', '?'), clause, site)
 
 
 def short_hash(s):
